@@ -1,7 +1,7 @@
 (* C04 correspondence cases: the input together with what the implementation answered; [check]
    evaluates the model on the same input and compares.  Results of apply are compared in the
    IndexMap's iteration order (so the swap_remove model is exercised too). *)
-From FB Require Export C04.Model C04.Text C04.Hyps C04.Hyps2 C04.Model2 Base.Run.
+From FB Require Export C04.Model C04.Text C04.Hyps C04.Hyps2 C04.Model2 C04.Model3 Base.Run.
 
 Inductive case :=
 | COpt (d : action str) (t : option str) (r : res (option str))   (* quill::apply_diff_option *)
@@ -13,7 +13,10 @@ Inductive case :=
 | CAct (a : action str) (isd isd_ref : bool) (tup : option str * option str) (fl ft : action str)
     (* Action::is_diff, as_ref().is_diff(), to_tuple, flip, from_tuple(to_tuple) of the implementation *)
 | CRead (t : text) (r : res mdiffs)                                (* tiny_v2_diff::read_file *)
-| CPrint (d : mdiffs) (t : text).                                  (* the harness' printer = [print] *)
+| CPrint (d : mdiffs) (t : text)                                   (* the harness' printer = [print] *)
+| CLine (k : N) (fs : list str) (r : res (action str)).
+    (* TinyLine::action / action_string through tiny_v2_diff::read_file on a one-entry file: the cells after the key of a
+       class (0) / field (1) / method (2) / parameter (3) line, or of a comment line (4); r = the entry's action, Err if refused *)
 
 Definition check (c : case) : bool :=
   match c with
@@ -44,5 +47,8 @@ Definition check (c : case) : bool :=
       && pair_eqb (opt_eqb str_eqb) (opt_eqb str_eqb) (to_tuple a) tup
       && action_eqb (flip a) fl && action_eqb (from_tuple (fst tup) (snd tup)) ft && action_eqb ft a
   | CRead t r => res_eqb mdiffs_eqb (read t) r
+      (* C04_read_image, judged on what the implementation returned *)
+      && match r with Ok d => read_image_b d | Err => true end
   | CPrint d t => str_eqb (print d) t
+  | CLine k fs r => res_eqb action_eqb (line_action k fs) r && res_eqb action_eqb (line_spec k fs) r
   end.
